@@ -20,7 +20,7 @@ MANIFEST = {
                  "with before/after hashing of every pre-existing path",
     "text": "Every extension of Trajectory._savers() that can be written here (18) and of md.open(mode='w') x pre-existing "
             "content {valid file of the format, longer valid file, 1 KiB unrelated bytes; for dtr a directory} x {1,3} "
-            "frames (restart formats: numbered files with one of them pre-existing, and the base name pre-existing) x "
+            "frames (restart formats: every non-empty subset of the numbered files pre-existing, and the base name pre-existing) x "
             "{save, open+write} x force_overwrite {False, True} is executed. False must raise and leave every pre-existing "
             "path byte-identical; True must leave exactly what the same call writes into an empty directory (size and "
             "loaded content; bytes where no timestamp is embedded). Read-only clause: load, load_frame, iterload, "
@@ -176,9 +176,15 @@ def write_case(args):
         targets = _targets(base, ext, nfr)
         # where = which path pre-exists: 'target' (the/one file the call must write) or 'base' (restart multi-frame:
         # the un-numbered name, which the call does not write and must not touch)
-        prepath = (targets[1] if len(targets) > 1 else targets[0]) if where == "target" else base
-        clash = prepath in targets
-        _make_pre(prepath, ext, pre, seed)
+        # 'numbered:i,j' = exactly these numbered files of a multi-frame restart output pre-exist (every non-empty subset
+        # is enumerated)
+        if where.startswith("numbered:"):
+            prepaths = [targets[int(i)] for i in where.split(":")[1].split(",")]
+        else:
+            prepaths = [targets[0] if where == "target" else base]
+        clash = any(q in targets for q in prepaths)
+        for q in prepaths:
+            _make_pre(q, ext, pre, seed)
         before = _snapshot(d)
         err = _do_write(base, ext, entry, nfr, fo, seed)
         after = _snapshot(d)
@@ -308,9 +314,13 @@ def run(ctx):
         for pre, nfr, entry, fo in itertools.product(pres, (1, 3), ("save", "open"), (False, True)):
             if entry == "open" and ext in RESTART and nfr > 1:
                 continue  # the restart file objects hold one frame; numbered output is a feature of save()
-            jobs.append((ext, pre, nfr, entry, fo, "target", ctx.seed, ctx.scratch))
             if ext in RESTART and nfr > 1 and entry == "save":
                 jobs.append((ext, pre, nfr, entry, fo, "base", ctx.seed, ctx.scratch))
+                for k in range(1, nfr + 1):
+                    for sub in itertools.combinations(range(nfr), k):
+                        jobs.append((ext, pre, nfr, entry, fo, "numbered:" + ",".join(map(str, sub)), ctx.seed, ctx.scratch))
+            else:
+                jobs.append((ext, pre, nfr, entry, fo, "target", ctx.seed, ctx.scratch))
     outs = ctx.pmap(write_case, jobs)
     n = 0
     distinct = set()
